@@ -1,6 +1,7 @@
 """C12 — async methods: exact Output, Send by default, opt-out honoured."""
 from ..common import Report
 from ..corpus import load, load_repo_tests
+from ..crossgen import load_cross
 from ..model import ty_s, mentions
 from ..wrules import (FnModView, TraitView, ImplBlockView, trait_methods, impl_methods, in_macro, last_seg, impls_of)
 
@@ -57,6 +58,7 @@ def run(tier):
     configs = ["plain", "unimock_test"] if tier == "quick" else ["plain", "test", "unimock", "unimock_test"]
     programs = 0
     loaded = [(cfg, load(rep, "pos", cfg)) for cfg in configs]
+    loaded += [(cfg, load_cross(rep, cfg, tier)) for cfg in configs]
     if tier == "thorough":
         loaded.append(("unimock_test", load_repo_tests(rep)))
     for cfg, ld in loaded:
